@@ -93,7 +93,35 @@ pub enum Op {
     NMapKeys,
     NMapUpdate(String),
     NMapForCount,
+    /// an operation whose callback (or iterable argument) reads the container the operation is
+    /// working on: see `REENTRANT`
+    NReentrant(u8),
 }
+
+/// (targets the list, script): the callback touches the same shared container. Whatever the
+/// operation does with its borrow while user code runs, it must not block on itself (arc) or
+/// panic (rc).
+pub const REENTRANT: &[(bool, &str)] = &[
+    (true, "shared.transform |x| x + 0 * (size shared)\nnull"),
+    (true, "shared.extend (0..2).each |x| 7000 + x + 0 * (size shared)\nnull"),
+    (true, "shared.retain |x| (size shared) >= 0\nnull"),
+    (true, "shared.sort |x| -x + 0 * (size shared)\nnull"),
+    (true, "shared.find |x| (size shared) < 0"),
+    (false, "smap.sort |k, v| v + 0 * (size smap)\nnull"),
+    (false, "smap.extend (0..1).each |x| ('a', 7000 + 0 * (size smap))\nnull"),
+    (false, "smap.update 'a', 0, |v| v + 0 * (size smap)"),
+    (false, "smap.each(|(k, v)| v + size smap).count()"),
+    // … and callbacks that MODIFY the container the operation is working on
+    (true, "shared.transform |x|\n  shared.pop()\n  x\nnull"),
+    (true, "shared.retain |x|\n  if (size shared) < 8\n    shared.push 0\n  true\nnull"),
+    (true, "shared.sort |x|\n  shared.push 0\n  -x\nnull"),
+    (true, "shared.extend (0..2).each |x|\n  shared.push 5\n  x\nnull"),
+    (true, "shared.find |x|\n  shared.clear()\n  false"),
+    (false, "smap.update 'a', 0, |v|\n  smap.insert 'zz', 1\n  v"),
+    (false, "smap.sort |k, v|\n  smap.remove 'b'\n  v\nnull"),
+    (false, "smap.extend (0..1).each |x|\n  smap.insert 'yy', 2\n  ('a', 1)\nnull"),
+    (false, "smap.each(|(k, v)| smap.remove k).count()"),
+];
 
 impl Op {
     pub fn class_a(&self) -> bool {
@@ -107,6 +135,7 @@ impl Op {
                 | Op::NMapKeys
                 | Op::NMapUpdate(_)
                 | Op::NMapForCount
+                | Op::NReentrant(_)
         )
     }
 
@@ -175,6 +204,7 @@ impl Op {
             NMapKeys => "smap.keys().to_tuple()".into(),
             NMapUpdate(k) => format!("smap.update '{k}', 0, |v| v + 1"),
             NMapForCount => "c = 0\nfor k, v in smap\n  c += 1\nc".into(),
+            NReentrant(i) => REENTRANT[*i as usize].1.into(),
         }
     }
 }
@@ -453,6 +483,15 @@ fn gen_op(r: &mut Rng, thread: usize, n: &mut i64, target_list: bool, allow_n: b
     };
     let key = |r: &mut Rng| r.pick(KEYS).to_string();
     let ix = |r: &mut Rng| r.usize_below(4);
+    if allow_n && r.chance(1, 10) {
+        let candidates: Vec<u8> = REENTRANT
+            .iter()
+            .enumerate()
+            .filter(|(_, (list, _))| *list == target_list)
+            .map(|(i, _)| i as u8)
+            .collect();
+        return Op::NReentrant(*r.pick(&candidates));
+    }
     if allow_n && r.chance(1, 4) {
         return if target_list {
             r.pick(&[Op::NForCount, Op::NToList, Op::NRetainPred, Op::NSortKey, Op::NTransform])
@@ -661,7 +700,7 @@ pub fn run_sequential(w: &Workload, order: &[(usize, usize)]) -> Result<Vec<Stri
     for (t, i) in order {
         let script = w.threads[*t][*i].script();
         let r = catch_unwind(AssertUnwindSafe(|| {
-            host.koto.compile_and_run(&script).map_err(|e| e.to_string())
+            crate::sched::solo(|| host.koto.compile_and_run(&script).map_err(|e| e.to_string()))
         }));
         match r {
             Ok(r) => out.push(render(&mut host.koto, r)),
@@ -914,6 +953,60 @@ pub fn check(w: &Workload, o: &Outcome) -> Option<Violation> {
     None
 }
 
+/// A panic (rc: the borrow flag) or a self-deadlock (arc: the only running thread waits for a
+/// lock it holds) while ONE thread runs the operations one after the other is not a model
+/// problem: no schedule is involved, the operation cannot complete on its own
+pub fn sequential_violation(e: &str) -> Option<Violation> {
+    if !e.starts_with("panic in sequential run") {
+        return None;
+    }
+    let class = if e.contains(crate::sched::SELF_DEADLOCK) { "deadlock" } else { "panic" };
+    Some(Violation {
+        class: class.into(),
+        detail: e.replace('\n', " / "),
+    })
+}
+
+/// The workload reduced to the one operation that cannot complete sequentially
+pub fn reduce_to_failing_op(w: &Workload) -> Workload {
+    for ops in &w.threads {
+        for op in ops {
+            let mut w1 = w.clone();
+            w1.threads = vec![vec![op.clone()]];
+            if let Some(e) = self_check(&w1)
+                && sequential_violation(&e).is_some()
+            {
+                return w1;
+            }
+        }
+    }
+    w.clone()
+}
+
+pub fn sequential_report(w: &Workload, e: &str) -> Option<crate::campaign::ViolationReport> {
+    let v = sequential_violation(e)?;
+    let small = reduce_to_failing_op(w);
+    let e2 = self_check(&small).unwrap_or_else(|| e.to_string());
+    let v2 = sequential_violation(&e2).unwrap_or(v);
+    Some(crate::campaign::ViolationReport {
+        class: v2.class,
+        detail: v2.detail,
+        scenario: json!({"workload": workload_to_json(&small), "decisions": [], "sequential": true}),
+        extra: json!({"original_operations": w.op_count()}),
+        known: None,
+    })
+}
+
+pub fn replay_sequential(doc: &Value) -> (Option<(String, String)>, u64) {
+    let Some(w) = workload_from_json(&doc["scenario"]["workload"]) else {
+        return (Some(("harness:bad-replay-file".into(), "cannot parse workload".into())), 0);
+    };
+    match self_check(&w).and_then(|e| sequential_violation(&e)) {
+        Some(v) => (Some((v.class, v.detail)), 1),
+        None => (None, 0),
+    }
+}
+
 /// Model self-check: the workload executed sequentially (one fixed order) must match the
 /// sequential specification exactly; a mismatch is a harness error, never a violation.
 pub fn self_check(w: &Workload) -> Option<String> {
@@ -1061,6 +1154,7 @@ fn parse_op(s: &str) -> Option<Op> {
         "NMapKeys" => NMapKeys,
         "NMapUpdate" => NMapUpdate(st(0)?),
         "NMapForCount" => NMapForCount,
+        "NReentrant" => NReentrant(us(0)? as u8),
         _ => return None,
     })
 }
@@ -1269,7 +1363,10 @@ impl Worker for LockWorker {
         let mut rep = RunReport::default();
         // fault-free configuration first: the sequential model must agree with koto
         if let Some(e) = self_check(&w) {
-            rep.harness_error = Some(e);
+            match sequential_report(&w, &e) {
+                Some(v) => rep.violations.push(v),
+                None => rep.harness_error = Some(e),
+            }
             return rep;
         }
         let strategy = gen_strategy(run_seed, &w);
@@ -1371,6 +1468,9 @@ pub fn replay(doc: &Value) -> (Option<Violation>, u64) {
         .as_array()
         .map(|a| a.iter().filter_map(|x| x.as_u64().map(|x| x as u8)).collect())
         .unwrap_or_default();
+    if let Some(v) = self_check(&w).and_then(|e| sequential_violation(&e)) {
+        return (Some(v), 1);
+    }
     let o = run_concurrent(&w, Strategy::Replay(decisions), 0);
     let dg = digest(&o);
     let mut o2 = o.clone();
@@ -1486,7 +1586,10 @@ impl Worker for SeqWorker {
         let w = gen_workload(run_seed);
         let mut rep = RunReport::default();
         if let Some(e) = self_check(&w) {
-            rep.harness_error = Some(e);
+            match sequential_report(&w, &e) {
+                Some(v) => rep.violations.push(v),
+                None => rep.harness_error = Some(e),
+            }
             return rep;
         }
         // order 1: thread after thread; order 2: round robin
@@ -1514,7 +1617,10 @@ impl Worker for SeqWorker {
                     }
                 }
                 Err(e) => {
-                    rep.harness_error = Some(e);
+                    match sequential_report(&w, &e) {
+                        Some(v) => rep.violations.push(v),
+                        None => rep.harness_error = Some(e),
+                    }
                     return rep;
                 }
             }
